@@ -64,7 +64,8 @@ let () =
           let cap = nat_of_int (int_of_string cap) in
           let ops = List.map (fun o ->
               match o.[0] with
-              | 'a' -> WAppend (bytes_of_hex (String.sub o 1 (String.length o - 1)))
+              | 'a' | 'b' | 'c' | 'd' ->   (* b, c, d: the same bytes handed over through a uint16_t / uint32_t / double pointer *)
+                  WAppend (bytes_of_hex (String.sub o 1 (String.length o - 1)))
               | 'n' -> WAppendNull (nat_of_int (int_of_string (String.sub o 1 (String.length o - 1))))
               | _ -> WFlush) (split_on ',' ops) in
           (* run step by step so that the sink delta per operation can be printed *)
